@@ -330,6 +330,85 @@ Proof.
     + intros b Hb0. destruct (Hfp b Hb0) as (Hn & Hlv). split; [|lia]. unfold owned. rewrite log_blocks_snoc, Hlb, Hnil, app_nil_r. exact Hn.
 Qed.
 
+(* ------------------------------------------------------------------ the newest record as nine explicit cells *)
+Definition R9 (h : block) (u : nat) (r : list val) : block := put_cells h (9 * u) r.
+Lemma nth_put_in {A} (l : list A) o vs k d : (o + length vs <= length l)%nat -> (k < length vs)%nat -> nth (o + k) (put_cells l o vs) d = nth k vs d.
+Proof.
+  intros H Hk. unfold put_cells. rewrite app_nth2 by (rewrite firstn_length; lia). rewrite firstn_length, Nat.min_l by lia.
+  replace (o + k - o)%nat with k by lia. apply app_nth1. exact Hk.
+Qed.
+Lemma nth_skipn' {A} (l : list A) : forall n i d, nth i (skipn n l) d = nth (n + i) l d.
+Proof. induction l as [|a l IH]; intros [|n] i d; try reflexivity; [destruct i; reflexivity|]. cbn [skipn]. apply IH. Qed.
+Lemma nth_put_out {A} (l : list A) o vs k d : (o + length vs <= length l)%nat -> ~ (o <= k < o + length vs)%nat -> nth k (put_cells l o vs) d = nth k l d.
+Proof.
+  intros H Hk. unfold put_cells. destruct (Nat.lt_ge_cases k o) as [L|L].
+  - rewrite app_nth1 by (rewrite firstn_length; lia). apply nth_firstn_lt'. exact L.
+  - rewrite app_nth2 by (rewrite firstn_length; lia). rewrite firstn_length, Nat.min_l by lia.
+    rewrite app_nth2 by lia. rewrite nth_skipn'. f_equal. lia.
+Qed.
+Lemma put_put {A} (l : list A) o vs vs' : (o + length vs <= length l)%nat -> length vs' = length vs -> put_cells (put_cells l o vs) o vs' = put_cells l o vs'.
+Proof.
+  intros H E. unfold put_cells at 1 3. rewrite firstn_put_cells by lia. f_equal. f_equal.
+  unfold put_cells. rewrite skipn_app, firstn_length, Nat.min_l by lia. rewrite skipn_all2 by (rewrite firstn_length; lia). cbn [app].
+  replace (o + length vs' - o)%nat with (length vs') by lia. rewrite skipn_app, E. rewrite skipn_all2 by lia. cbn [app].
+  rewrite Nat.sub_diag. reflexivity.
+Qed.
+Lemma upd_cons_S {A} (a : A) l n v : upd (a :: l) (S n) v = a :: upd l n v.
+Proof. reflexivity. Qed.
+Lemma upd_app_mid {A} (X B C : list A) k v : (k < length B)%nat -> upd (X ++ B ++ C) (length X + k) v = X ++ upd B k v ++ C.
+Proof.
+  intro Hk. induction X as [|a X IH]; cbn [app length Nat.add].
+  - unfold upd. rewrite firstn_app, skipn_app. replace (k - length B)%nat with 0%nat by lia. replace (S k - length B)%nat with 0%nat by lia.
+    cbn [firstn skipn]. rewrite app_nil_r, <- app_assoc. reflexivity.
+  - rewrite upd_cons_S, IH. reflexivity.
+Qed.
+Lemma upd_put {A} (l : list A) o vs k v : (o + length vs <= length l)%nat -> (k < length vs)%nat ->
+  upd (put_cells l o vs) (o + k) v = put_cells l o (upd vs k v).
+Proof.
+  intros H Hk. unfold put_cells. rewrite upd_length by exact Hk.
+  replace (o + k)%nat with (length (firstn o l) + k)%nat by (rewrite firstn_length; lia). apply upd_app_mid. exact Hk.
+Qed.
+Lemma R9_length h u r : (9 * u + length r <= length h)%nat -> length (R9 h u r) = length h.
+Proof. apply put_cells_length. Qed.
+Lemma hc_R9_in h u r k : (9 * u + 9 <= length h)%nat -> length r = 9%nat -> (k < 9)%nat -> hc (R9 h u r) (9 * u + k) = nth k r VUndef.
+Proof. intros H L Hk. unfold hc, R9. apply nth_put_in; lia. Qed.
+Lemma hc_R9_out h u r k : (9 * u + 9 <= length h)%nat -> length r = 9%nat -> ~ (9 * u <= k < 9 * u + 9)%nat -> hc (R9 h u r) k = hc h k.
+Proof. intros H L Hk. unfold hc, R9. apply nth_put_out; lia. Qed.
+Lemma R9_R9 h u r r' : (9 * u + 9 <= length h)%nat -> length r = 9%nat -> length r' = 9%nat -> R9 (R9 h u r) u r' = R9 h u r'.
+Proof. intros H L L'. unfold R9. apply put_put; lia. Qed.
+Lemma upd_R9 h u r k v : (9 * u + 9 <= length h)%nat -> length r = 9%nat -> (k < 9)%nat -> upd (R9 h u r) (9 * u + k) v = R9 h u (upd r k v).
+Proof. intros H L Hk. unfold R9. apply upd_put; lia. Qed.
+
+Definition mark_cells (m : mem) (c7 c8 : val) : Prop :=
+  (c7 = VInt 0 /\ c8 = VInt 0) \/ (exists bm bo, c7 = VPtr bm 0 /\ c8 = VPtr bo 0 /\ marr m bm bo).
+Lemma ent_rep_R9 (m : mem) h u c0 c1 c2 c3 c4 c5 c6 c7 c8 lo : (9 * u + 9 <= length h)%nat ->
+  sown m c0 (ins lo) -> sown m c1 (del lo) -> c2 = VInt (Z.of_nat (pos lo)) -> c3 = VInt (Z.of_nat (n_ins lo)) ->
+  c4 = VInt (Z.of_nat (n_del lo)) -> (exists z, c5 = VInt z) -> c6 = VInt (seq lo) -> mark_cells m c7 c8 ->
+  i31 (pos lo) /\ i31 (n_ins lo) /\ i31 (n_del lo) /\ i32 (seq lo) ->
+  ent_rep m (R9 h u [c0; c1; c2; c3; c4; c5; c6; c7; c8]) u lo.
+Proof.
+  intros H H0 H1 H2 H3 H4 H5 H6 H7 H8.
+  pose proof (hc_R9_in h u [c0; c1; c2; c3; c4; c5; c6; c7; c8] 0 H eq_refl ltac:(lia)) as E0. rewrite Nat.add_0_r in E0.
+  constructor; unfold mark_part; rewrite ?E0, ?(hc_R9_in h u _ 1), ?(hc_R9_in h u _ 2), ?(hc_R9_in h u _ 3), ?(hc_R9_in h u _ 4),
+    ?(hc_R9_in h u _ 5), ?(hc_R9_in h u _ 6), ?(hc_R9_in h u _ 7), ?(hc_R9_in h u _ 8) by (try reflexivity; lia); cbn [nth]; assumption.
+Qed.
+Lemma ent_blocks_R9 h u c0 c1 c2 c3 c4 c5 c6 c7 c8 : (9 * u + 9 <= length h)%nat ->
+  ent_blocks (R9 h u [c0; c1; c2; c3; c4; c5; c6; c7; c8]) u = ptr_block c0 ++ ptr_block c1 ++ ptr_block c7 ++ ptr_block c8.
+Proof.
+  intro H. rewrite ent_blocks_eq.
+  pose proof (hc_R9_in h u [c0; c1; c2; c3; c4; c5; c6; c7; c8] 0 H eq_refl ltac:(lia)) as E0. rewrite Nat.add_0_r in E0.
+  rewrite E0, (hc_R9_in h u _ 1), (hc_R9_in h u _ 7), (hc_R9_in h u _ 8) by (try reflexivity; lia). reflexivity.
+Qed.
+
+Lemma upd_comm {A} (m : list A) : forall a b x y, a <> b -> (a < length m)%nat -> (b < length m)%nat ->
+  upd (upd m a x) b y = upd (upd m b y) a x.
+Proof.
+  induction m as [|c m IH]; intros a b x y Hne Ha Hb; cbn [length] in *; [lia|].
+  destruct a as [|a], b as [|b]; try lia; try reflexivity.
+  change (upd (c :: m) (S a) x) with (c :: upd m a x). change (upd (c :: m) (S b) y) with (c :: upd m b y).
+  change (upd (c :: upd m a x) (S b) y) with (c :: upd (upd m a x) b y). change (upd (c :: upd m b y) (S a) x) with (c :: upd (upd m b y) a x).
+  f_equal. apply IH; lia.
+Qed.
 Lemma nth_error_app_new' {A} (m : list A) x n : n = length m -> nth_error (m ++ [x]) n = Some x.
 Proof. intros ->. apply nth_error_app_new. Qed.
 
@@ -344,6 +423,30 @@ Definition opt_grow : stmt := match opt_rest2 with SSeq a _ => a | _ => SSkip en
 Definition opt_rest3 : stmt := match opt_rest2 with SSeq _ r => r | _ => SSkip end.          (* the append *)
 Lemma opt_body_eq : opt_body = SSeq opt_drop (SSeq opt_setn (SSeq opt_grow opt_rest3)). Proof. reflexivity. Qed.
 
+Definition sD1 : stmt := match opt_rest3 with SSeq a _ => a | _ => SSkip end.
+Definition opt_t1 : stmt := match opt_rest3 with SSeq _ r => r | _ => SSkip end.
+Definition sD2 : stmt := match opt_t1 with SSeq a _ => a | _ => SSkip end.
+Definition opt_t2 : stmt := match opt_t1 with SSeq _ r => r | _ => SSkip end.
+Definition sD3 : stmt := match opt_t2 with SSeq a _ => a | _ => SSkip end.
+Definition opt_t3 : stmt := match opt_t2 with SSeq _ r => r | _ => SSkip end.
+Definition sE1 : stmt := match opt_t3 with SSeq a _ => a | _ => SSkip end.
+Definition opt_t4 : stmt := match opt_t3 with SSeq _ r => r | _ => SSkip end.
+Definition sE2 : stmt := match opt_t4 with SSeq a _ => a | _ => SSkip end.
+Definition opt_t5 : stmt := match opt_t4 with SSeq _ r => r | _ => SSkip end.
+Definition sE3 : stmt := match opt_t5 with SSeq a _ => a | _ => SSkip end.
+Definition opt_t6 : stmt := match opt_t5 with SSeq _ r => r | _ => SSkip end.
+Definition sF : stmt := match opt_t6 with SSeq a _ => a | _ => SSkip end.
+Definition opt_t7 : stmt := match opt_t6 with SSeq _ r => r | _ => SSkip end.
+Definition sG : stmt := match opt_t7 with SSeq a _ => a | _ => SSkip end.
+Definition opt_t8 : stmt := match opt_t7 with SSeq _ r => r | _ => SSkip end.
+Definition sH : stmt := match opt_t8 with SSeq a _ => a | _ => SSkip end.
+Definition opt_t9 : stmt := match opt_t8 with SSeq _ r => r | _ => SSkip end.
+Definition sI : stmt := match opt_t9 with SSeq a _ => a | _ => SSkip end.
+Definition opt_t10 : stmt := match opt_t9 with SSeq _ r => r | _ => SSkip end.
+Definition sJ : stmt := match opt_t10 with SSeq a _ => a | _ => SSkip end.
+Definition opt_t11 : stmt := match opt_t10 with SSeq _ r => r | _ => SSkip end.
+Definition sK : stmt := opt_t11.
+Lemma opt_rest3_eq : opt_rest3 = SSeq sD1 (SSeq sD2 (SSeq sD3 (SSeq sE1 (SSeq sE2 (SSeq sE3 (SSeq sF (SSeq sG (SSeq sH (SSeq sI (SSeq sJ sK)))))))))). Proof. reflexivity. Qed.
 Lemma x_lbuf_cp_none : nth_error cprog X_lbuf_cp = None. Proof. vm_compute. reflexivity. Qed.
 
 Section Opt.
@@ -524,5 +627,79 @@ Section Opt.
     { intros b Hb0 N1 N2. rewrite nth_error_app_old by lia. rewrite mem_upd_other by (try lia; exact N1).
       rewrite mem_upd_other by (try lia; exact N2). unfold mB. apply mem_upd_other; [exact Hbl|exact N1]. }
     intros _. rewrite nth_error_app_old by lia. rewrite mem_upd_other by (try lia; congruence). apply mem_upd_same. lia.
+  Qed.
+  (* lo = &lb->hist[lb->hist_n]; lb->hist_n++; lb->hist_u = lb->hist_n; memset(lo, 0, sizeof lo[0]); lo->pos = pos; lo->n_del = n_del; *)
+  Definition lo_init (p nd : nat) : lopt := {| pos := p; n_ins := 0; n_del := nd; del := None; ins := None; seq := 0 |}.
+  Lemma opt_init_ok (m : mem) bl (blk : block) bh (hblk : block) lb (bufv : val) p nd (l4 l5 l6 l7 : val) rest :
+    urep T m bl blk bh hblk lb -> hist_u lb = length (hist lb) -> (length (hist lb) < hist_sz lb)%nat -> i31 p -> i31 nd ->
+    let u := length (hist lb) in
+    let blkE := upd (upd blk L_hist_n (VInt (Z.of_nat (S u)))) L_hist_u (VInt (Z.of_nat (S u))) in
+    let hblkE := R9 hblk u [VInt 0; VInt 0; VInt (Z.of_nat p); VInt 0; VInt (Z.of_nat nd); VInt 0; VInt 0; VInt 0; VInt 0] in
+    let mE := upd (upd m bh hblkE) bl blkE in
+    exec cx fuel (SSeq sD1 (SSeq sD2 (SSeq sD3 (SSeq sE1 (SSeq sE2 (SSeq sE3 rest))))))
+         (mkst [VPtr bl 0; bufv; VInt (Z.of_nat p); VInt (Z.of_nat nd); l4; l5; l6; l7] m)
+    = exec cx fuel rest (mkst [VPtr bl 0; bufv; VInt (Z.of_nat p); VInt (Z.of_nat nd); VPtr bh (Z.of_nat (9 * u)); l5; l6; l7] mE) /\
+    urep T mE bl blkE bh hblkE (push lb (lo_init p nd)).
+  Proof.
+    intros R Hun Hroom Hp Hnd u blkE hblkE mE. pose proof R as [Hb L I Cn Rn Cq Ch Csz Cnn Cu Cz Cl Rg Hh Hl He Ho Ht].
+    destruct Rg as (Rq & (Ru & Rs) & Rz & Rsz). fold u in Hroom, Cnn, Ru, Rs.
+    assert (Hbl : (bl < length m)%nat) by (apply nth_error_Some; congruence).
+    assert (Hbh : (bh < length m)%nat) by (apply nth_error_Some; congruence).
+    assert (Nhl : bh <> bl) by (intro X; subst; inversion Ho as [|? ? Hn _]; apply Hn; left; reflexivity).
+    assert (Hlen : (9 * u + 9 <= length hblk)%nat) by (rewrite Hl; lia).
+    set (b1 := upd blk L_hist_n (VInt (Z.of_nat (S u)))) in *.
+    assert (L1 : length b1 = LBUF_CELLS) by (unfold b1; rewrite upd_length; [exact L|rewrite L; unfold LBUF_CELLS, L_hist_n; lia]).
+    assert (LE : length blkE = LBUF_CELLS) by (unfold blkE; rewrite upd_length; [exact L1|rewrite L1; unfold LBUF_CELLS, L_hist_u; lia]).
+    assert (CE : forall j, j <> L_hist_n -> j <> L_hist_u -> nth_error blkE j = nth_error blk j).
+    { intros j J1 J2. unfold blkE. rewrite nth_error_upd_other by (try assumption; rewrite L1; unfold LBUF_CELLS, L_hist_u; lia).
+      unfold b1. apply nth_error_upd_other; [rewrite L; unfold LBUF_CELLS, L_hist_n; lia|exact J1]. }
+    split.
+    - rewrite exec_seq. unfold sD1 at 1, opt_rest3, opt_rest2, opt_rest1, opt_body; cbn [fn_body cf_lbuf_opt]. xstep.
+      xfld Hb Ch. xfld Hb Cnn. rewrite wrap_I32_id by (unfold i31 in *; lia). xstep.
+      unfold sD2 at 1, opt_t1, opt_rest3, opt_rest2, opt_rest1, opt_body; cbn [fn_body cf_lbuf_opt]. xstep.
+      xfld Hb Cnn. rewrite wrap_I32_id by (unfold i31 in *; lia). rewrite chk_I32 by (unfold i31 in *; lia). xstep.
+      replace (Z.of_nat u + 1) with (Z.of_nat (S u)) by lia.
+      rewrite (fld_store m bl blk L_hist_n _ _ Hb) by (try reflexivity; rewrite L; unfold LBUF_CELLS, L_hist_n; lia). cbn [fst snd]. xstep. fold b1.
+      unfold sD3 at 1, opt_t2, opt_t1, opt_rest3, opt_rest2, opt_rest1, opt_body; cbn [fn_body cf_lbuf_opt]. xstep.
+      assert (C1n : nth_error b1 L_hist_n = Some (VInt (Z.of_nat (S u)))) by (unfold b1; apply nth_error_upd_same; rewrite L; unfold LBUF_CELLS, L_hist_n; lia).
+      rewrite (fld_load_upd m bl b1 L_hist_n _ _ Hbl C1n) by reflexivity. xstep. rewrite !(wrap_I32_id (Z.of_nat (S u))) by (unfold i31 in *; lia).
+      rewrite (fld_store_upd m bl b1 L_hist_u _ _ Hbl) by (try reflexivity; rewrite L1; unfold LBUF_CELLS, L_hist_u; lia). xstep. fold blkE.
+      unfold sE1 at 1, opt_t3, opt_t2, opt_t1, opt_rest3, opt_rest2, opt_rest1, opt_body; cbn [fn_body cf_lbuf_opt]. xstep.
+      change (chk U64 (56 * 9)) with (@Ok Z 504). xstep. change (if 56 =? 0 then Err EDivZero else chk U64 (504 ÷ 56)) with (@Ok Z 9). xstep.
+      replace (0 + 9 * Z.of_nat u) with (Z.of_nat (9 * u)) by lia.
+      assert (HhE : nth_error (upd m bl blkE) bh = Some hblk) by (rewrite mem_upd_other by assumption; exact Hh).
+      rewrite (memset_ok (upd m bl blkE) bh (Z.of_nat (9 * u)) 0 9 hblk HhE) by lia. xstep.
+      rewrite Nat2Z.id. change (repeat (VInt (wrap U8 0)) (Z.to_nat 9)) with [VInt 0; VInt 0; VInt 0; VInt 0; VInt 0; VInt 0; VInt 0; VInt 0; VInt 0].
+      fold (R9 hblk u [VInt 0; VInt 0; VInt 0; VInt 0; VInt 0; VInt 0; VInt 0; VInt 0; VInt 0]).
+      rewrite (upd_comm m bl bh) by (try assumption; congruence).
+      set (h0 := R9 hblk u [VInt 0; VInt 0; VInt 0; VInt 0; VInt 0; VInt 0; VInt 0; VInt 0; VInt 0]).
+      assert (Lh0 : length h0 = length hblk) by (apply R9_length; cbn [length]; lia).
+      assert (Lm0 : forall x, length (upd m bh x) = length m) by (intro; apply upd_length; exact Hbh).
+      unfold sE2 at 1, opt_t4, opt_t3, opt_t2, opt_t1, opt_rest3, opt_rest2, opt_rest1, opt_body; cbn [fn_body cf_lbuf_opt]. xstep.
+      rewrite (wrap_I32_id (Z.of_nat p)) by (unfold i31 in *; lia).
+      rewrite (fld_store _ bh h0 (9 * u + 2)) by (try lia; rewrite mem_upd_other by (rewrite ?Lm0; congruence); apply mem_upd_same; exact Hbh). xstep.
+      unfold h0 at 2. rewrite upd_R9 by (try reflexivity; lia). cbn [upd firstn skipn app].
+      rewrite (upd_comm _ bl bh) by (rewrite ?Lm0; try assumption; congruence). rewrite upd_upd by exact Hbh.
+      set (h1 := R9 hblk u [VInt 0; VInt 0; VInt (Z.of_nat p); VInt 0; VInt 0; VInt 0; VInt 0; VInt 0; VInt 0]).
+      assert (Lh1 : length h1 = length hblk) by (apply R9_length; cbn [length]; lia).
+      unfold sE3 at 1, opt_t5, opt_t4, opt_t3, opt_t2, opt_t1, opt_rest3, opt_rest2, opt_rest1, opt_body; cbn [fn_body cf_lbuf_opt]. xstep.
+      rewrite (wrap_I32_id (Z.of_nat nd)) by (unfold i31 in *; lia).
+      rewrite (fld_store _ bh h1 (9 * u + 4)) by (try lia; rewrite mem_upd_other by (rewrite ?Lm0; congruence); apply mem_upd_same; exact Hbh). xstep.
+      unfold h1 at 2. rewrite upd_R9 by (try reflexivity; lia). cbn [upd firstn skipn app].
+      rewrite (upd_comm _ bl bh) by (rewrite ?Lm0; try assumption; congruence). rewrite upd_upd by exact Hbh.
+      reflexivity.
+    - assert (Lr : length hblkE = length hblk) by (apply R9_length; cbn [length]; lia).
+      apply (urep_push T m bl blk blkE bh hblk hblkE lb (lo_init p nd) TF R Hun Hroom); fold u; try assumption.
+      + intros j Hj. rewrite CE by (unfold L_hist_n, L_hist_u; lia). apply I. exact Hj.
+      + intros j _ J1 J2. apply CE; assumption.
+      + unfold blkE. rewrite nth_error_upd_other by (try (unfold L_hist_n, L_hist_u; lia); rewrite L1; unfold LBUF_CELLS, L_hist_u; lia).
+        unfold b1. apply nth_error_upd_same. rewrite L; unfold LBUF_CELLS, L_hist_n; lia.
+      + unfold blkE. apply nth_error_upd_same. rewrite L1; unfold LBUF_CELLS, L_hist_u; lia.
+      + intros k Hk. apply hc_R9_out; [exact Hlen|reflexivity|exact Hk].
+      + apply ent_rep_R9; cbn [lo_init ins del pos n_ins n_del seq sown]; try reflexivity; try exact Hlen.
+        * exists 0. reflexivity.
+        * left. split; reflexivity.
+        * unfold i31, i32 in *. repeat split; try lia; cbn; lia.
+      + unfold hblkE. rewrite ent_blocks_R9 by exact Hlen. reflexivity.
   Qed.
 End Opt.
